@@ -8,7 +8,7 @@ tmp=$(mktemp -d /var/tmp/seedmx.XXXX)
 for id in "${ids[@]}"; do
   [ -f seeded/$id/patch.diff ] || continue
   if ! git -C /repo diff --quiet; then echo "/repo not clean"; exit 2; fi
-  git -C /repo apply seeded/$id/patch.diff || { echo "$id: patch does not apply"; continue; }
+  git -C /repo apply /verif/seeded/$id/patch.diff || { echo "$id: patch does not apply"; continue; }
   mkdir -p $tmp/$id
   seq -w 1 20 | xargs -P 10 -I{} sh -c "./check C{} --tier quick > $tmp/$id/C{}.log 2>&1; echo \$? > $tmp/$id/C{}.rc"
   git -C /repo checkout -- .
